@@ -9,7 +9,7 @@ LEVEL = "fault_enumeration"
 SHARDS = {"quick": 16, "thorough": 16}
 RULE = (
     "Scenarios = result value (scalar, list, None, numpy array, InMemoryPartition/OnDiskPartition, exception, values larger than the whole memory cache) x topology {one function; two functions producing byte-identical results; "
-    "caller -> callee; key override} x {no cache, cache}: a fixed canonical list plus Hypothesis-generated ones. For each scenario a dry run lists every mutating filesystem operation "
+    "caller -> callee; key override; key override shared with a call memoized beforehand} x {no cache, cache}: a fixed canonical list plus Hypothesis-generated ones. For each scenario a dry run lists every mutating filesystem operation "
     "(mkdir, open for writing, rename/replace, remove) issued under the store while memoizing, and EVERY such operation is combined with every applicable variant: process death before the operation, "
     "right after it, after an open with the file left empty, after half of the bytes were written; ENOSPC reported by the operation, by the write after half of the bytes, or when the file is closed. "
     "Death = os._exit in a forked child (no finally blocks, no buffer flush). Oracle: afterwards, in a fresh process on the damaged store, three calls of every function of the scenario raise nothing "
@@ -41,9 +41,15 @@ CANONICAL = [
     # a result larger than the whole memory cache (0.5 MB), with and without a sibling producing the same bytes
     {"value": {"t": "str", "n": 600000, "c": "B"}, "topology": "single", "cache": True},
     {"value": {"t": "nd", "dtype": "int8", "n": 700000}, "topology": "twin", "cache": True},
+    # the faulted call publishes under an override key another call has already published under
+    {"value": {"t": "str", "v": "report"}, "topology": "override-shared", "cache": False},
+    {"value": {"t": "list", "v": [{"t": "int", "v": "3"}]}, "topology": "override-shared", "cache": True},
 ]
-ACTIONS = {"single": [["cv", 1]], "twin": [["cv", 1], ["cv2", 1]], "chain": [["cc", 1]], "override": [["ck", 1]]}
-VERIFY = {"single": ["cv"], "twin": ["cv", "cv2"], "chain": ["cc", "cv"], "override": ["ck"]}
+ACTIONS = {"single": [["cv", 1]], "twin": [["cv", 1], ["cv2", 1]], "chain": [["cc", 1]], "override": [["ck", 1]],
+           "override-shared": [["ck2", 1]]}
+# calls made (fault-free) before the faulted ones: another call has already published under the same override key
+PRE = {"override-shared": [["ck", 1]]}
+VERIFY = {"single": ["cv"], "twin": ["cv", "cv2"], "chain": ["cc", "cv"], "override": ["ck"], "override-shared": ["ck", "ck2"]}
 
 
 def _child(spec):
@@ -55,11 +61,16 @@ def _child(spec):
     st = FilesystemStorageBackend(path=spec["store"], memory_cache_mb=0.5 if spec["cache"] else None)
     venv.set_env(spec["base"], {"c": st})
     vd = spec["value"]
-    for fname in ("cv", "cv2", "ck"):
+    for fname in ("cv", "cv2", "ck", "ck2"):
         if "exc" in vd:
             rt.TABLE[(fname, 1)] = lambda: tfuncs.raise_kind(vd["exc"], vd["msg"])
         else:
             rt.TABLE[(fname, 1)] = lambda: values.build(vd)
+    for fname, k in spec.get("pre", []):
+        try:
+            cfuncs.FUNCS[fname](k)
+        except BaseException:  # noqa
+            pass
     rt.take()
     res = []
 
@@ -127,7 +138,7 @@ def fault_points(scn, scratch):
     d = env.fresh_dir(scratch, "c08dry-")
     try:
         spec = {"store": os.path.join(d, "store"), "base": d, "cache": scn["cache"], "value": scn["value"],
-                "calls": ACTIONS[scn["topology"]], "observe": True}
+                "calls": ACTIONS[scn["topology"]], "pre": PRE.get(scn["topology"], []), "observe": True}
         dry = proc.forkrun(_child, spec)
         pts = []
         for ev in dry["events"]:
@@ -152,6 +163,7 @@ def run_point(scn, pt, scratch, second=None):
     try:
         store = os.path.join(d, "store")
         spec = {"store": store, "base": d, "cache": scn["cache"], "value": scn["value"], "calls": ACTIONS[scn["topology"]],
+                "pre": PRE.get(scn["topology"], []),
                 "plan": {"event": pt["event"], "variant": pt["variant"], "k": pt["k"]},
                 "again": 0 if pt["variant"].startswith("crash") else 2}
         r = proc.forkrun(_child, spec, crash_code=faults.CRASH_CODE)
@@ -252,7 +264,7 @@ def scenario_strategy():
     val = st.one_of(S.scalar, st.lists(S.scalar, max_size=3).map(lambda v: {"t": "list", "v": v}), S.nd(), S.partition,
                     st.sampled_from([{"exc": "ValueError", "msg": "m"}, {"exc": "TwoArgErr", "msg": "m"}]))
     return st.builds(lambda v, t, c: {"scenario": {"value": v, "topology": t, "cache": c}, "point": None},
-                     val, st.sampled_from(["single", "twin", "chain", "override"]), st.booleans())
+                     val, st.sampled_from(["single", "twin", "chain", "override", "override-shared"]), st.booleans())
 
 
 def run_shard(ctx):
